@@ -28,7 +28,8 @@ KANI = [{
         H("delta_apply_3_4_3", ["C07"], "bounded", "base 3 bytes, delta 4 bytes, target 3 bytes, all well-formed instruction streams", functions=DELTA),
         H("delta_apply_4_5_4", ["C07"], "bounded", "base 4, delta 5, target 4", functions=DELTA),
         H("delta_apply_4_6_5", ["C07"], "bounded", "base 4, delta 6, target 5", functions=DELTA),
-        H("delta_apply_6_8_8", ["C07"], "bounded", "base 6, delta 8, target 8", tier="thorough", timeout=2400, mem_gb=16, functions=DELTA),
+        H("delta_apply_6_8_8", ["C07"], "bounded", "base 6, delta 8, target 8", timeout=2400, mem_gb=12, functions=DELTA),
+        H("delta_apply_8_10_11", ["C07"], "bounded", "base 8, delta 10, target 11", tier="thorough", timeout=3600, mem_gb=16, functions=DELTA),
         H("fanout_2", ["C09"], "bounded", "sorted tables of 2 ids (first 3 bytes symbolic)", tier="off", timeout=3000, functions=FAN[:1]),
         H("fanout_4", ["C09"], "bounded", "sorted tables of 4 ids", tier="off", timeout=5400, functions=FAN[:1]),
         H("fanout_6", ["C09"], "bounded", "sorted tables of 6 ids", tier="off", functions=FAN[:1]),
